@@ -519,6 +519,13 @@ func (s *Stream) MsgSend(msg drpc.Message, enc drpc.Encoding) (err error) {
 	// have to wait for the first receive, which flushes under the write lock.
 	started := !s.sigs.send.IsSet()
 
+	// a send writes and flushes (or leaves flushing to the application), so
+	// once one has been made the first receive does not have to flush what
+	// was buffered when the stream was made, and does not wait for the write
+	// lock to do so. the send that takes this over from the receive has to
+	// see it through: see the marshal error below.
+	first := atomic.SwapUint32(&s.flush, 1) == 0
+
 	defer s.checkFinished()
 	s.write.Lock()
 	defer s.write.Unlock()
@@ -529,14 +536,15 @@ func (s *Stream) MsgSend(msg drpc.Message, enc drpc.Encoding) (err error) {
 	}
 	wbuf, err := drpcenc.MarshalAppend(msg, enc, s.wbuf[:0])
 	if err != nil {
+		// nothing has been written, so nothing is going to be flushed along
+		// with it. if the receive left the first flush to this send, do it
+		// now, or the invoke stays in the buffer and the receive waits for a
+		// handler that is never started.
+		if first && !s.opts.ManualFlush {
+			_ = s.rawFlushLocked()
+		}
 		return errs.Wrap(err)
 	}
-
-	// from here on this send writes and flushes (or leaves flushing to the
-	// application), so the first receive does not have to flush what was
-	// buffered when the stream was made. a send that failed to marshal has
-	// written nothing and must leave that flush to the receive.
-	atomic.StoreUint32(&s.flush, 1)
 
 	if s.opts.MaximumBufferSize == 0 || len(wbuf) < s.opts.MaximumBufferSize {
 		s.wbuf = wbuf
